@@ -38,7 +38,7 @@ import ast
 from ..dataflow import is_shared
 from ..repo import AnalysisError, FuncInfo, dotted, own_nodes
 from ..sublist import SubInterp, apps, is_sub
-from .common import ctor_self_write
+from .common import ctor_self_write, is_memo_fill
 
 MANIFEST = {
     "text": (
@@ -260,6 +260,8 @@ def run(ctx):
         closure = eff.closure(fi, None, max_depth=5)
         flagged = False
         for w in ws:
+            if is_memo_fill(ctx, w.event):
+                continue  # a correctly invalidated private memo (filled by a query the filter calls)
             if ctor_self_write(w):
                 continue  # a private helper object initialising itself
             shared = [o for o in w.origins if is_shared(o) and o[0] != "unknown"]
